@@ -31,7 +31,7 @@ PROPS["C01"] = {
 }
 
 PROPS["C12"] = {
-    "shards": {"quick": 8, "thorough": 16},
+    "shards": {"quick": 16, "thorough": 16},
     "rule": ("pool of ~80 fixed + seeded near-duplicate data values (no NaN); every ordered pair is run through "
              ".== .!= .< .<= .> .>= ugt ult ugte ulte == includes, triples are checked on the observed result matrices "
              "(all in thorough, 60k sampled in quick), plus random sort/unique lists; a pair is non-trivial when the "
@@ -43,7 +43,7 @@ PROPS["C12"] = {
 }
 
 _FMT_COMMON = {
-    "shards": {"quick": 8, "thorough": 16},
+    "shards": {"quick": 16, "thorough": 16},
     "needs_cli": True,
     "probe_opts": {"quick": {"cli": _CLI}, "thorough": {"cli": _CLI}},
 }
@@ -73,7 +73,7 @@ PROPS["C09"] = dict(_FMT_COMMON, **{
     "assumptions": ["strings have no escapes, so `//` outside a quote-delimited run starts a comment"],
 })
 PROPS["C10"] = {
-    "shards": {"quick": 8, "thorough": 16},
+    "shards": {"quick": 16, "thorough": 16},
     "rule": ("(1) every ordered pair of the 26 binary operators in both tree shapes, triples x 5 shapes (12 level representatives in quick, all 17576 in thorough), every "
              "prefix/postfix/call/index/field x binary combination: the minimally parenthesised text (per the table stated in C10, the harness's own) and the fully parenthesised "
              "text must both parse to the intended tree; (2) generated programs re-printed with optional layout (spaces, tabs, line breaks at operators/brackets/conditional parts, "
@@ -85,7 +85,7 @@ PROPS["C10"] = {
     "assumptions": ["line break after a word operator, after `=`, after `if`, and an inline trailing comma in a call are not admitted by the grammar and not generated"],
 }
 PROPS["C11"] = {
-    "shards": {"quick": 8, "thorough": 16},
+    "shards": {"quick": 16, "thorough": 16},
     "rule": ("(1) all pairs of a 30-value scalar pool x 23 operators against an IEEE/concatenation/ordering model (NaN comparisons: no claim); (2) broadcasting law for the 17 "
              "broadcasting operators x {list-scalar, scalar-list, list-list}, lengths 0..8 incl. mismatched, element pools with nested lists and mixed types: result must be the "
              "list of element results (element operation = the real evaluator on two scalars, dot variant / coalesce / failure for list elements) and fail exactly when an element "
@@ -95,7 +95,7 @@ PROPS["C11"] = {
     "assumptions": ["f64 arithmetic of the harness (same toolchain) is the IEEE reference; fmod for %, powf for ^"],
 }
 PROPS["C13"] = {
-    "shards": {"quick": 8, "thorough": 16},
+    "shards": {"quick": 16, "thorough": 16},
     "rule": ("37 function classes (lambdas of arity 0-3, optional, rest, failing, closures, named, self- and mutually recursive, curried, built-ins of every arity class, "
              "non-function) x random lists of length 0..10: `l via f` vs map, `l where p` vs filter, `x into f` vs f(x), every/some vs conjunction/disjunction, reduce vs a fold "
              "done by the harness with real calls, independent (element, index) expectations, and the hook-H2 call trace (once per element, in order). "
@@ -104,7 +104,7 @@ PROPS["C13"] = {
     "assumptions": ["error messages are not compared, only success/failure and values"],
 }
 PROPS["C14"] = {
-    "shards": {"quick": 8, "thorough": 16},
+    "shards": {"quick": 16, "thorough": 16},
     "rule": ("random lists (0..40, homogeneous/mixed/duplicates/+-0), strings (ASCII, multi-byte, combining, astral, empty), records (odd keys) and integer ranges; ~70 laws with "
              "an independent list model: len, reverse, concat, spread, head/tail, indexing at every index -n-2..n+1, odd indices (no crash, element or null), slice, flatten, chunk, "
              "zip, unique, sort (stable permutation, ordered when comparable), sort_by (tagged elements), group_by/count_by, includes, range, keys/values/entries, field/index "
@@ -138,7 +138,7 @@ PROPS["C16"] = {
     "assumptions": ["CPython's float(str) and float(int) are correctly rounded (ties to even)", "spellings outside the documented grammar (explicit + sign) carry no claim"],
 }
 PROPS["C15"] = {
-    "shards": {"quick": 8, "thorough": 16},
+    "shards": {"quick": 16, "thorough": 16},
     "offline": _lazy("c15"),
     "rule": ("number lists of length 1..50 in seven regimes (small integers, dyadic, decimal fractions, mixed magnitudes, with infinities, duplicates incl. +-0, tiny and huge); "
              "sum/prod/avg/min/max/median are called as f(list), f(...list), f(a, b, ...) and on a permutation; conventions must agree bit for bit (in process); offline, exact rational "
@@ -149,7 +149,7 @@ PROPS["C15"] = {
     "assumptions": ["NaN is outside the quantifier"],
 }
 PROPS["C06"] = {
-    "shards": {"quick": 8, "thorough": 16},
+    "shards": {"quick": 16, "thorough": 16},
     "needs_cli": True,
     "offline": _lazy("c06"),
     "rule": ("(1) random data values (depth <= 5; doubles from boundaries and random bits, strings over all scalar values incl. quotes, backslashes, controls, U+2028, astral; odd keys) "
@@ -207,7 +207,7 @@ PROPS["C03"] = {
 }
 
 PROPS["C04"] = {
-    "shards": {"quick": 8, "thorough": 16},
+    "shards": {"quick": 16, "thorough": 16},
     "rule": ("(1) 18 closure definitions with a model of their result (capturing numbers / strings / lists / records / closures over two levels, defined at top level, in do-blocks "
              "with and without shadowing, returned from functions, curried, recursive through the own name, captured inside nested lambdas / conditionals / do-blocks / record "
              "shorthand / spread / call-target / index positions, optional parameters): the call right after the definition must equal the model, then the same call is made from 19 "
@@ -222,7 +222,7 @@ PROPS["C04"] = {
 }
 
 PROPS["C02"] = {
-    "shards": {"quick": 8, "thorough": 16},
+    "shards": {"quick": 16, "thorough": 16},
     "needs_cli": True,
     "probe_opts": {"quick": {"cli": _CLI}, "thorough": {"cli": _CLI}},
     "rule": ("generated well-scoped programs (2-12 statements + a block that sorts / reverses / uniques / spreads shared lists, calls random(seed), builds closures over >= 3 captured "
@@ -236,7 +236,7 @@ PROPS["C02"] = {
 }
 
 PROPS["C05"] = {
-    "shards": {"quick": 8, "thorough": 16},
+    "shards": {"quick": 16, "thorough": 16},
     "needs_cli": True,
     "probe_opts": {"quick": {"cli": _CLI}, "thorough": {"cli": _CLI}},
     "rule": ("functions are defined in one heap, emitted through from_value -> to_json -> text, reloaded through from_str -> from_json (must be a function, not a record) -> to_value "
